@@ -331,6 +331,8 @@ type c16LongCase struct {
 	Kind  int `json:"lead_kind"`
 	Bufio int `json:"bufio_size"`
 	Chunk int `json:"reader_chunk"`
+	// Tail > 0: instead of two null packets the stream ENDS with the first Tail bytes of a header (47 40 00)
+	Tail int `json:"cut_header_bytes,omitempty"`
 }
 
 func c16CheckLong(c c16LongCase) engine.Result {
@@ -365,14 +367,18 @@ func c16CheckLong(c c16LongCase) engine.Result {
 			s = append(s, p[:]...)
 		}
 	}
-	s = append(s, c16NullPacket[:]...)
-	s = append(s, c16NullPacket[:]...)
+	if c.Tail > 0 {
+		s = append(s, []byte{0x47, 0x40, 0x00}[:c.Tail]...)
+	} else {
+		s = append(s, c16NullPacket[:]...)
+		s = append(s, c16NullPacket[:]...)
+	}
 	at, falseSyncs, cut := c16Scan(s)
 	sr := ref.ScriptedReader{Data: s, Chunk: c.Chunk}
 	br := bufio.NewReaderSize(&sr, c.Bufio)
 	engine.Guard(&res, "Sync", func() {
 		c16Run(&res, br, &sr, s, at, c16Class(at, falseSyncs, cut), func() string {
-			return fmt.Sprintf("lead of %d bytes (kind %d) + two null packets, bufio size %d, reader chunk %d", c.Lead, c.Kind, c.Bufio, c.Chunk)
+			return fmt.Sprintf("lead of %d bytes (kind %d) + two null packets (or a header cut after %d bytes), bufio size %d, reader chunk %d", c.Lead, c.Kind, c.Tail, c.Bufio, c.Chunk)
 		})
 	})
 	res.Nontrivial = 1
@@ -487,13 +493,44 @@ func init() {
 						for k := 0; k < 5; k++ {
 							for _, b := range []int{16, 1500, 4096, 65536} {
 								for _, ch := range []int{0, 1000} {
-									emit(c16LongCase{n, k, b, ch})
+									emit(c16LongCase{Lead: n, Kind: k, Bufio: b, Chunk: ch})
 								}
 							}
 						}
 					}
 				},
 				Check: c16CheckLong, Batch: 4,
+			},
+			&engine.Enum[c16LongCase]{
+				Name: "sync-packet-multiples",
+				Rule: "leads of N x 0xFF for every N within 3 bytes of a multiple of 188 up to 32 packets (6016 bytes; thorough: every N in 0..6100), followed by two null packets or by a header that the end of the stream cuts after 1, 2 or 3 bytes, through bufio sizes {16, 1500, 2000, 4096, 5000} over whole-stream reads, one byte per Read and 1000 bytes per Read: a search that looks ahead in windows of whole packets meets its window ends and the end of the stream at every phase; oracle of sync-long-leads",
+				Gen: func(r *engine.Run, emit func(c16LongCase)) {
+					var leads []int
+					if r.Thorough() {
+						leads = seq(0, 6100)
+					} else {
+						for m := 0; m <= 32; m++ {
+							for d := -3; d <= 3; d++ {
+								if n := m*188 + d; n >= 0 {
+									leads = append(leads, n)
+								}
+							}
+						}
+					}
+					for _, n := range leads {
+						for tail := 0; tail <= 3; tail++ {
+							for _, b := range []int{16, 1500, 2000, 4096, 5000} {
+								for _, ch := range []int{0, 1, 1000} {
+									if ch == 1 && b == 16 && n > 1000 {
+										continue
+									}
+									emit(c16LongCase{Lead: n, Kind: 0, Bufio: b, Chunk: ch, Tail: tail})
+								}
+							}
+						}
+					}
+				},
+				Check: c16CheckLong, Batch: 8,
 			},
 			&engine.Enum[c16LongCase]{
 				Name: "sync-buffer-edges",
@@ -506,7 +543,7 @@ func init() {
 					for b := 16; b <= maxB; b++ {
 						for d := 0; d <= 6 && d < b; d++ {
 							for _, k := range []int{0, 4} {
-								emit(c16LongCase{b - d, k, b, 1000 * (b % 2)})
+								emit(c16LongCase{Lead: b - d, Kind: k, Bufio: b, Chunk: 1000 * (b % 2)})
 							}
 						}
 					}
